@@ -20,11 +20,10 @@ VARIABLES files, next
 vars == <<files, next>>
 
 \* bytes.Replace(data, "\r\n", "\n", -1): one left-to-right pass, non-overlapping
-RECURSIVE Norm(_)
+\* (a CR directly followed by LF is dropped, everything else is kept: one left-to-right pass, pairs cannot overlap)
 Norm(raw) ==
-  IF raw = <<>> THEN <<>>
-  ELSE IF Len(raw) >= 2 /\ raw[1] = 13 /\ raw[2] = 10 THEN <<10>> \o Norm(SubSeq(raw, 3, Len(raw)))
-  ELSE <<raw[1]>> \o Norm(Tail(raw))
+  LET keep == SelectSeq([i \in 1..Len(raw) |-> i], LAMBDA i : ~(raw[i] = 13 /\ i < Len(raw) /\ raw[i + 1] = 10))
+  IN [k \in 1..Len(keep) |-> raw[keep[k]]]
 
 FileRec(name, raw, base) == [name |-> name, raw |-> raw, data |-> Norm(raw), base |-> base]
 
